@@ -274,3 +274,27 @@ def check_no_shared_state(c, rule, modules, why, floor_funcs=10):
                         f"no-state-outliving-a-call:{desc[:70]}", m.loc(mi_, node),
                         f"{desc}: the container is created once and shared by every later "
                         f"call / instance, so {why}")
+
+
+def only_called_from(m, fd, allowed, depth=2):
+    """is the private function/method ``fd`` (``_name``) called only from functions
+    named in ``allowed`` (directly, or through further private helpers)?  A block
+    moved out of an allowed function into a helper keeps the allowance."""
+    import ast
+    if fd.name in allowed:
+        return True
+    if depth <= 0 or not fd.name.startswith("_") or fd.name.startswith("__"):
+        return False
+    mi = m.module_of(fd)
+    callers = []
+    for g in ast.walk(mi.tree):
+        if isinstance(g, (ast.FunctionDef, ast.AsyncFunctionDef)) and g is not fd:
+            for call in ast.walk(g):
+                if isinstance(call, ast.Call) and (
+                        (isinstance(call.func, ast.Name) and call.func.id == fd.name)
+                        or (isinstance(call.func, ast.Attribute) and call.func.attr == fd.name
+                            and isinstance(call.func.value, ast.Name)
+                            and call.func.value.id in ("self", "cls"))):
+                    callers.append(g)
+                    break
+    return bool(callers) and all(only_called_from(m, g, allowed, depth - 1) for g in callers)
